@@ -16,6 +16,8 @@ type ReqCase struct {
 	Labels []string `json:"labels,omitempty"`
 }
 
+func (c ReqCase) genLabels() []string { return c.Labels }
+
 func mkReqCase(gr GenReq) ReqCase { return ReqCase{Req: string(mustJSON(gr.Req)), Labels: gr.Labels} }
 
 func errClass(e string) string {
